@@ -190,6 +190,7 @@ class Interp:
         self._decided: dict = {}
         self.concrete_enums = False
         self._gen_stack: list = []
+        self.cur_node = None
         self.steps = 0
         self.stubs: dict = {}  # FuncInfo.fq -> callable(interp, args, kwargs, bound): replaces a repository function
         self.yielded: list = []
@@ -778,6 +779,7 @@ class Interp:
     # ------------------------------------------------------------------
     # expressions
     def eval(self, e, env, mi):
+        self.cur_node = e
         self.steps += 1
         if self.steps > self.MAX_STEPS:
             raise AnalysisError(f'interpretation exceeds {self.MAX_STEPS} steps (non-terminating loop?) at {self.where(e)}')
